@@ -12,9 +12,9 @@ PROP = 'C02'
 MANIFEST = dict(
     technique='TLA+ model (EscapeOps/Escape on top of the TokenizerOps lexer) checked by TLC; escape_text and the real tokenizer run on the same exhaustive family and on seeded random Unicode strings, every record validated by TLC (EscapeTrace)',
     category='model_checking',
-    text='TLC checks the inverse law (one STRING token equal to s, then EOF; no raw quote; no raw line break in single-line mode; the closing quote is the appended one) for every string up to length 4 (5 thorough) over the 14 characters that matter to escaping, in both modes, on the string reader alone, on the whole lexer under four option sets and step by step; the real escape_text/Tokenizer are run on exactly that family (count handshake) and on seeded random strings over all Unicode scalar values, alone, embedded at token boundaries of larger texts and as value (and leaf name) inside lines written by Keyvalues.export/serialise, VMF Entity.export and BSP.write_ent_data (multiline mode); TLC compares every record character for character with Escape(s, ml) and with the run of the specified lexer.',
+    text='TLC checks the inverse law (one STRING token equal to s, then EOF; no raw quote; no raw line break in single-line mode; the closing quote is the appended one) for every string up to length 4 (5 thorough) over the 14 characters that matter to escaping, in both modes, on the string reader alone, on the whole lexer under four option sets and step by step; the real escape_text/Tokenizer are run on exactly that family (count handshake) and on seeded random strings over all Unicode scalar values, alone, embedded at token boundaries of larger texts, and in every position in which a writer of the tree embeds escaped text (52 positions: KeyValues1 value/name/block name via export and serialise; VMF entity key, value, comments, fixup value, side material, cordon and visgroup names; Output name/target/input/params with both separators through as_keyvalue, Entity.export and BSP.write_ent_data with use_comma_sep None/True/False; entity-lump key and value; DMX KV2 element type/name, attribute name, string and string-array values): a fixed list of hostile strings plus random ones in each position; TLC requires the token in that position to equal the string (or the composite value it is a field of), the line to have the token count of the same line written with a harmless string, and the whole line to lex as the specification says.',
     design_ref='4 (C02)',
-    note='Trusts TLC and the projection (token name, value, line_num, exception type/message/line). Pure-Python tokenizer only (the Cython _tokenizer cannot be built here). DMX-KV2 writer lines are not exercised (needs a whole element graph; C14).',
+    note='Trusts TLC and the projection (token name, value, line_num, exception type/message/line). Pure-Python tokenizer only (the Cython _tokenizer cannot be built here). Format limits respected per field: entity-lump positions get ASCII strings only (the lump is written as ASCII bytes); an empty entity comment is not written; the DMX attribute called name is the element name. Output fields are judged on the token (a separator character inside a field is the business of the Output grammar, C06).',
 )
 
 ACTIONS = {'Grow', 'Start', 'Open', 'Char', 'Backslash', 'Letter', 'Close', 'Eof'}
@@ -63,7 +63,12 @@ def run(tier: str, seed: int) -> int:
         outs.append(p)
         for mode in ('random', 'lines'):
             p = work.path(mode + '.ndjson')
-            core.run_driver('c02_driver.py', [mode, p], env=env)
+            st = json.loads(core.run_driver('c02_driver.py', [mode, p], env=env).strip().splitlines()[-1])
+            if mode == 'lines':
+                seen = {json.loads(ln)['writer'] for ln in p.read_text(encoding='utf-8').splitlines()}
+                if st['positions'] < 52 or len(seen) != st['positions']:
+                    raise core.MachineryError(f'writer positions exercised: {len(seen)} of {st["positions"]} (52 expected)')
+                cov['writer_positions'] = sorted(seen)
             outs.append(p)
         # 4. TLC validates every record (one pass)
         allp = work.path('all.ndjson')
@@ -88,8 +93,7 @@ def run(tier: str, seed: int) -> int:
         cov['rule'] = (f'every string of length <= {fam["maxlen"]} over the code points {fam["alphabet"]} x multiline in '
                        '{False, True} (model and implementation, same count); seeded random strings over all Unicode '
                        'scalar values with forced trailing backslash / backslash-LF / CR-LF cases, alone, embedded '
-                       'between random token soup, and as values/names of lines written by Keyvalues.export/serialise, '
-                       'Entity.export, BSP.write_ent_data')
+                       'between random token soup, and in each of the writer positions listed under writer_positions')
         known, new = core.classify(PROP, [sig_of(m) for m in allm])
         return core.finish(PROP, tier=tier, seed=seed, t0=t0, coverage=cov, known=known, new=new,
                            assumptions=['pure-Python srctools.tokenizer from /repo/src (the Cython accelerator cannot be built here)',
